@@ -637,7 +637,7 @@ SUBCHECKS = [
              quick=(16, 200), thorough=(16, 8000)),
     SubCheck('profile_history', c19.history_cases(), c19.check_history,
              'see C19 history: first read of an array after a normalize call',
-             quick=(8, 100), thorough=(16, 2000)),
+             quick=(16, 250), thorough=(16, 2000)),
     SubCheck('gridded_history', c13.gridded_cases(), c13.check_gridded,
              'see C13 gridded: evaluations in >=2 different cells, copies and '
              'parameter changes before the compared evaluation (fresh-model '
